@@ -5,6 +5,7 @@ import numpy as np
 from hypothesis import strategies as st
 
 from .. import gen, series
+from .. import core
 from ..core import call, drive
 from ..tissue import PRNG
 from . import c12
@@ -81,7 +82,7 @@ def check_case(p, ctx):
     if vanished is None:
         S = series.realise_series([S.T[k] for k in range(n)], nint, times, p["lab_seeds"], relabel=p["relabel"])
     fsys = call(fs.ForSys, S.frames, cm=False)
-    mesh = fsys.mesh
+    mesh = core.mesh_of(fsys)
     if any(mesh.mapping.get(k) is None for k in range(n - 1)):
         ctx.skip("frame pair declared too different (bounding box change after the jump)")
         return
